@@ -356,6 +356,73 @@ def rule_algebra(ck):
         for n in cfg.nodes:
             if n.kind == "stmt" and isinstance(n.stmt, ast.Expr) and isinstance(n.stmt.value, ast.Call) and (call_name(n.stmt.value) or "").endswith(("Error", "Exception")):
                 ck.violation("C12.R5", m, n.stmt, f"`{src(n.stmt, 60)}` constructs an exception without raising it", sink=f"algebra:{op}:dropped-exception")
+        if op in ("__add__", "__sub__", "__radd__") and len(m.params) == 2:
+            # the value itself, as a linear form in (self, other), on every returning path: self + other resp. self - other, also on
+            # shortcut paths taken when an operand is empty (there the empty operand counts as 0)
+            me, ot = m.params[0], m.params[1]
+            want = (1, 1) if op != "__sub__" else (1, -1)
+
+            def lf(e):
+                """(coefficient of self, coefficient of other) of a Current-valued expression, or None"""
+                if isinstance(e, ast.Name):
+                    return (1, 0) if e.id == me else ((0, 1) if e.id == ot else None)
+                if isinstance(e, ast.Call):
+                    nm = call_name(e)
+                    if nm in ("Current", "Series", "copy", "deepcopy") and len(e.args) == 1 and not [k for k in e.keywords if k.arg not in ("dtype", "copy")]:
+                        return lf(e.args[0])
+                    if nm in ("add", "sub", "subtract") and isinstance(e.func, ast.Attribute) and len(e.args) == 1:
+                        a, b = lf(e.func.value), lf(e.args[0])
+                        if a is None or b is None:
+                            return None
+                        sgn = 1 if nm == "add" else -1
+                        return (a[0] + sgn * b[0], a[1] + sgn * b[1])
+                    if nm in ("mul", "multiply") and isinstance(e.func, ast.Attribute) and len(e.args) == 1:
+                        a, k = lf(e.func.value), num(e.args[0])
+                        return None if a is None or k is None else (a[0] * k, a[1] * k)
+                    return None
+                if isinstance(e, ast.UnaryOp) and isinstance(e.op, ast.USub):
+                    a = lf(e.operand)
+                    return None if a is None else (-a[0], -a[1])
+                if isinstance(e, ast.BinOp) and isinstance(e.op, ast.Mult):
+                    for x, y in ((e.left, e.right), (e.right, e.left)):
+                        k, a = num(x), lf(y)
+                        if k is not None and a is not None:
+                            return (a[0] * k, a[1] * k)
+                    return None
+                if isinstance(e, ast.BinOp) and isinstance(e.op, (ast.Add, ast.Sub)):
+                    a, b = lf(e.left), lf(e.right)
+                    if a is None or b is None:
+                        return None
+                    sgn = 1 if isinstance(e.op, ast.Add) else -1
+                    return (a[0] + sgn * b[0], a[1] + sgn * b[1])
+                return None
+
+            def num(e):
+                try:
+                    v = const_value(e)
+                    return v if isinstance(v, (int, float)) and not isinstance(v, bool) else None
+                except (ValueError, TypeError):
+                    return None
+            from .. import pathtab
+            for row in [x for x in pathtab.table(fl) if x.end == "return"]:
+                rn = [n for n in row.nodes if n.kind == "return"]
+                if not rn or rn[-1].expr is None:
+                    continue
+                r = rn[-1]
+                pos = [i for i, x in enumerate(row.nodes) if x is r][0]
+                zero_self = any(t_ and k_ in (f"{me}.empty", f"len({me}) == 0") for k_, t_, a_, n_ in row.facts) or \
+                    any((not t_) and k_ in (f"len({me})", me) for k_, t_, a_, n_ in row.facts)
+                zero_other = any(t_ and k_ in (f"{ot}.empty", f"len({ot}) == 0") for k_, t_, a_, n_ in row.facts) or \
+                    any((not t_) and k_ in (f"len({ot})", ot) for k_, t_, a_, n_ in row.facts)
+                for e in alts_deep(pathtab.path_expand(fl, row.nodes, r.expr, pos)):
+                    got = lf(e)
+                    if got is None:
+                        continue
+                    ok_v = (zero_self or got[0] == want[0]) and (zero_other or got[1] == want[1])
+                    ck.require(ok_v, "C12.R5", m, r.stmt, ok=f"value is self {'+' if want[1] > 0 else '-'} other on this path",
+                               bad=f"{op} returns {got[0]}*self + ({got[1]})*other on this path" + (" (taken when self is empty)" if zero_self else "") +
+                                   (" (taken when other is empty)" if zero_other else "") + f"; it must be self {'+' if want[1] > 0 else '-'} other: the sign / an operand is lost",
+                               sink=f"algebra:{op}:value")
         if op in ("__add__", "__sub__"):
             adds = [c for n, c in calls_in(fl) if call_name(c) in ("add", "sub", "subtract")]
             ok = bool(adds) and all(any(k.arg == "fill_value" and isinstance(k.value, ast.Constant) and k.value.value == 0 for k in c.keywords) for c in adds)
